@@ -94,10 +94,10 @@ impl Property for C13 {
         384
     }
     fn required_counters(&self) -> Vec<&'static str> {
-        vec!["runs", "tree_discard_with_descendants", "two_tree_verdicts_same_directory", "tree_verdict_on_file", "pruned_by_glob", "tripwires_armed", "discard_on_walk_root", "file_verdict_on_directory"]
+        vec!["runs", "tree_verdict_on_link", "tree_discard_with_descendants", "two_tree_verdicts_same_directory", "tree_verdict_on_file", "pruned_by_glob", "tripwires_armed", "discard_on_walk_root", "file_verdict_on_directory"]
     }
     fn decode(&self, t: &mut Tape) -> Case {
-        let tree = gen_tree(t, &TreeCfg::default());
+        let tree = gen_tree(t, &TreeCfg { links: true, ..TreeCfg::default() });
         let base = if t.chance(50) { gen_base(t, &tree) } else { Base::Abs };
         let under = gen_under(t, &tree, &base);
         let layers = gen_layers(t, &tree, 0);
@@ -191,6 +191,14 @@ impl Property for C13 {
                 st.count("skipped_dot_prefix");
                 return Ok(());
             }
+            let mut p = base_abs.clone();
+            for c in g.prefix.split('/').filter(|c| !c.is_empty()) {
+                p = p.join(c);
+                if std::fs::symlink_metadata(&p).map(|m| m.file_type().is_symlink()).unwrap_or(false) {
+                    st.count("skipped_link_in_prefix");
+                    return Ok(());
+                }
+            }
         }
         let entries = underlying_entries(&base_abs, glob_rt.as_ref(), false, None);
         let m = model(&entries, glob_rt.as_ref(), &layers_rt);
@@ -241,6 +249,18 @@ impl Property for C13 {
         }
         if m.tree_on_file > 0 {
             st.count("tree_verdict_on_file");
+        }
+        {
+            // a tree verdict (from a layer or from glob pruning) on a symbolic link to a directory
+            let links: Vec<&str> = case.tree.nodes.iter().filter(|n| matches!(&n.kind, Kind::Link(t) if t.is_empty() || case.tree.nodes.iter().any(|m| m.path == *t && m.kind == Kind::Dir))).map(|n| n.path.as_str()).collect();
+            let hit = m.fed.keys().any(|rel| {
+                links.iter().any(|l| rel == l || rel.ends_with(&format!("/{}", l)))
+                    && (layers_rt.iter().any(|l| layer_verdict(l, rel) == Verdict::Tree)
+                        || glob_rt.as_ref().map_or(false, |g| glob_verdict(g, rel) == Verdict::Tree))
+            });
+            if hit {
+                st.count("tree_verdict_on_link");
+            }
         }
         if m.pruned_by_glob > 0 {
             st.count("pruned_by_glob");
